@@ -65,11 +65,11 @@ func TestVerifC37Wrap(t *testing.T) {
 	local := env.member("n1@a2")
 
 	var alphabet []c37wEvent
-	for i := range env.members {
+	for i := range env.members[:env.nbase] {
 		alphabet = append(alphabet, c37wEvent{"joined", i})
 	}
 
-	for i := range env.members {
+	for i := range env.members[:env.nbase] {
 		alphabet = append(alphabet, c37wEvent{"left", i})
 	}
 
